@@ -4,7 +4,10 @@
 // Every case runs in a forked child (one SimGrid engine per process); a child killed by a signal gives
 // `=> CRASH <signal> <last assertion text>`; a child that does not finish in 20 s gives `=> HANG`.
 //
-// case  :=  run H<nh> L<nl> (r:<i>:<j>:<l>[.<l>]*)* (a:<host>:<op>[,<op>]*)* (f:<c|p>:<off|on>:<h|l><idx>:<hexdate>)*
+// case  :=  run [M:ptask] H<nh> L<nl> (r:<i>:<j>:<l>[.<l>]*)* (a:<host>:<op>[,<op>]*)* (f:<c|p>:<off|on>:<h|l><idx>:<hexdate>)*
+//   M:ptask: the run uses --cfg=host/model:ptask_L07 (needed by multi-host executions; every action is then an L07Action:
+//   no is_on() test when an execution starts, the failure of an action started on an off host is seen at the next
+//   update_actions_state).  Durations differ from the default models; the check never predicts a date.
 //   hosts h0..h<nh-1> (speed 1024 flop/s) + controller host hc; links l0..l<nl-1> (1024 B/s, latency 1/64 s);
 //   r: route between h<i> and h<j> (symmetric) made of the listed links; CM02 model (all factors 1) so that dates are dyadic.
 //   a: one actor a<k> (k = order of appearance) on h<host> running the ops; f: one fault event, issued by the controller
@@ -12,6 +15,8 @@
 // op    :=  put.<mb>.<bytes> | get.<mb> | iput.<mb>.<bytes>.<slot> | iget.<mb>.<slot> | dput.<mb>.<bytes>
 //         | wait.<slot> | test.<slot> | wany.<slot>[.<slot>]* | exec.<host>.<flops> | iexec.<host>.<flops>.<slot>
 //         | sleep.<n>   (n/16 seconds) | sendto.<hfrom>.<hto>.<bytes>
+//         | pexec.<h>[-<h>]*.<flops>[-<flops>]*[.z]            parallel execution (Exec::set_hosts; M:ptask only): host list,
+//         | ipexec.<h>[-<h>]*.<flops>[-<flops>]*.<slot>[.z]    flops per host; z: an explicit all-zero bytes matrix (default: none)
 // log lines (clock printed with %a):
 //   <t> a<i> issue <k>            actor i is about to run its op k (the order of these lines is the order in which
 //                                 the kernel handles the simcalls of one scheduling round)
@@ -71,6 +76,7 @@ struct Fault {
   double date;
 };
 struct Case {
+  bool ptask = false;
   int nh = 0, nl = 0;
   std::vector<std::tuple<int, int, std::vector<int>>> routes;
   std::vector<std::pair<int, std::vector<std::string>>> actors;
@@ -85,7 +91,9 @@ static bool parse_case(const std::string& line, Case& c)
   if (tok != "run")
     return false;
   while (in >> tok) {
-    if (tok[0] == 'H')
+    if (tok == "M:ptask")
+      c.ptask = true;
+    else if (tok[0] == 'H')
       c.nh = atoi(tok.c_str() + 1);
     else if (tok[0] == 'L')
       c.nl = atoi(tok.c_str() + 1);
@@ -227,6 +235,23 @@ static std::string exc_kind(const std::exception& e)
   return std::string("other:") + typeid(e).name();
 }
 
+// a parallel execution: host list, flops per host, bytes matrix absent or all-zero (no link involved)
+static sg4::ExecPtr make_pexec(const std::string& hspec, const std::string& fspec, bool zero_matrix)
+{
+  std::vector<sg4::Host*> hs;
+  std::vector<double> fl;
+  for (auto const& x : split(hspec, '-'))
+    hs.push_back(g_hosts.at(atoi(x.c_str())));
+  auto fs = split(fspec, '-');
+  for (size_t i = 0; i < hs.size(); i++)
+    fl.push_back(atof(fs[std::min(i, fs.size() - 1)].c_str()));
+  auto e = sg4::Exec::init()->set_flops_amounts(fl);
+  if (zero_matrix)
+    e->set_bytes_amounts(std::vector<double>(hs.size() * hs.size(), 0.0));
+  e->set_hosts(hs);
+  return e;
+}
+
 static void actor_code(int me, std::vector<std::string> ops)
 {
   (*g_pid2idx)[sg4::this_actor::get_pid()] = me;
@@ -305,6 +330,18 @@ static void actor_code(int me, std::vector<std::string> ops)
         e->start();
         slots[atoi(p[3].c_str())] = e;
         add_handle(e->get_impl(), me, (int)k);
+      } else if (o == "pexec") {
+        auto e = make_pexec(p.at(1), p.at(2), p.size() > 3 && p[3] == "z");
+        e->start();
+        add_handle(e->get_impl(), me, (int)k);
+        resumed();
+        logline(A + " mid " + std::to_string(k));
+        e->wait();
+      } else if (o == "ipexec") {
+        auto e = make_pexec(p.at(1), p.at(2), p.size() > 4 && p[4] == "z");
+        e->start();
+        slots[atoi(p.at(3).c_str())] = e;
+        add_handle(e->get_impl(), me, (int)k);
       } else if (o == "sleep") {
         sg4::this_actor::sleep_for(atoi(p[1].c_str()) / 16.0);
       } else if (o == "sendto") {
@@ -358,9 +395,10 @@ static void controller(std::vector<Fault> faults)
 
 static int run_case(const Case& c, std::string& out)
 {
-  int argc         = 4;
-  const char* av[] = {"c10", "--log=root.thres:critical", "--cfg=network/model:CM02", "--cfg=network/crosstraffic:0", nullptr};
-  char** argv      = const_cast<char**>(av);
+  int argc          = c.ptask ? 3 : 4;
+  const char* av1[] = {"c10", "--log=root.thres:critical", "--cfg=network/model:CM02", "--cfg=network/crosstraffic:0", nullptr};
+  const char* av2[] = {"c10", "--log=root.thres:critical", "--cfg=host/model:ptask_L07", nullptr};
+  char** argv       = const_cast<char**>(c.ptask ? av2 : av1);
   sg4::Engine e(&argc, argv);
   auto* zone = e.get_netzone_root();
   for (int i = 0; i < c.nh; i++)
